@@ -198,6 +198,8 @@ def build(plan):
 
         # ---- major_version: one decision per sequence (explicit value applied to every header) or per header AUTO
         ev = None if sp["all_auto"] else sp["explicit_version"]
+        # one decision per sequence (every picture must agree, or another picture still implies version 3)
+        same_index_ho = rnd.random() < 0.4
         for du in units:
             pi = du["parse_info"]
             pc = pi["parse_code"]
@@ -267,7 +269,7 @@ def build(plan):
                         etpx["wavelet_index_ho"] = tpx["wavelet_index"]
                         kinds_used.add(("asym_transform_index_flag", "redundant"))
                     elif (etpx.get("asym_transform_index_flag", False) and "wavelet_index" in tpx
-                          and tpx.get("quant_matrix", {}).get("custom_quant_matrix", False) and rnd.random() < 0.4):
+                          and tpx.get("quant_matrix", {}).get("custom_quant_matrix", False) and same_index_ho):
                         # flag kept, horizontal wavelet made equal to the vertical one (the custom quantisation
                         # matrix depends on the depths only, so the stream stays decodable)
                         etpx["wavelet_index_ho"] = tpx["wavelet_index"]
